@@ -40,7 +40,10 @@ Qed.
 Lemma exec_drop_cat fk c t c3 :
   exec fk c (SDropTable t) = Ok c3 ->
   c3 = mkCat (without_table t (cat_tables c)) (without_indexes_of t (cat_indexes c)).
-Proof. cbn [exec]. destruct (has_ctable t c); [|discriminate]. intro H. now injection H. Qed.
+Proof.
+  cbn [exec]. destruct (has_ctable t c); [|discriminate].
+  destruct (fk && _)%bool; [discriminate|]. intro H. now injection H.
+Qed.
 
 Lemma ctable_eta x : mkCTable (ct_name x) (ct_cols x) (ct_autoinc x) (ct_fks x) (ct_checks x) = x.
 Proof. now destruct x. Qed.
